@@ -119,13 +119,35 @@ func obsParse(img []byte) string {
 	return showTokens(ts)
 }
 
+// the header fields the property and the parser speak of: Signature and SizeOfHeader (0..5), SizeOfAPCB (8..11),
+// Signature2 (32..35), SignatureEnding (124..127); Version, UniqueAPCBInstance, the checksum bytes and the
+// reserved fields are not among them
+func hdrFields(b []byte) []byte {
+	if len(b) < 128 {
+		return b
+	}
+	r := append([]byte{}, b[0:6]...)
+	r = append(r, b[8:12]...)
+	r = append(r, b[32:36]...)
+	return append(r, b[124:128]...)
+}
+
+// the buffer after a successful call as it is compared with the model: those header fields, then everything
+// behind the header (a failed call is compared on the whole buffer: it must be left unchanged)
+func project(b []byte) []byte {
+	if len(b) < 128 {
+		return b
+	}
+	return append(hdrFields(b), b[128:]...)
+}
+
 func obsUpsert(q req, img []byte) (string, []byte, error) {
 	buf := append([]byte{}, img...)
 	err := apcb.UpsertToken(apcb.TokenID(q.k), apcb.PriorityMask(q.pm), q.bm, q.value(), buf)
 	if err != nil {
 		return ErrClass(err, errTable) + " " + H(buf), buf, err
 	}
-	return "ok " + H(buf), buf, nil
+	return "ok " + H(project(buf)), buf, nil
 }
 
 func opParse(a []string) string { return obsParse(UnH(a[0])) }
@@ -368,8 +390,15 @@ func checkUpsert(img []byte, q req) (string, []byte) {
 				}
 			}
 		}
-		if !bytes.Equal(buf, want) {
+		// the property speaks of the length, the listed tokens and the nested sizes: the body (everything behind
+		// the 128-byte header the parser and the walker use) and the bytes beyond the blob are compared byte for
+		// byte; of the header only the fields the parser reads (the three signatures, SizeOfAPCB) and SizeOfHeader
+		// must be as they were - a checksum byte, UniqueAPCBInstance or reserved bytes may be rewritten
+		if !bytes.Equal(buf[128:], want[128:]) {
 			return "FAIL update-changed-other-bytes" + tg, buf
+		}
+		if !bytes.Equal(hdrFields(buf), hdrFields(img)) {
+			return "FAIL update-changed-header-field" + tg, buf
 		}
 	}
 	if !existed && w2.size != w.size+need {
@@ -868,6 +897,226 @@ func farBlob(r *Rng, which int) (*gblob, []req) {
 	return s, qs
 }
 
+// ---------- families added by the coverage audit (seeded changes C18a1..C18a5) ----------
+
+// sharedBlob: two or three token groups (foreign groups before, between and after) whose types draw their
+// ids from one small ascending pool, most of them of one kind and with masks that contain one chosen priority
+// bit and one chosen board bit (all 8 resp. 16 bit positions are drawn uniformly), so that a single request meets
+// the same token id in several matching types and in several groups; group header extensions of up to 1000 bytes
+// (SizeOfHeader below, at and beyond 256). Requests: a pool id (update in every matching type), a new id between
+// pool ids, the first id again under other masks, a request of another kind. A quarter of the pools is drawn from
+// the ids 0, 1, 2, 2^31-1, 2^31, 2^32-2, 2^32-1 and the four ids the package names; values 0 and all ones.
+func sharedBlob(r *Rng) (*gblob, []req) {
+	s := &gblob{}
+	copy(s.hdr[:], r.Bytes(128))
+	kind := uint16(r.Pick(0, 1, 2, 4))
+	bp := uint8(1) << uint(r.Intn(8))
+	bb := uint16(1) << uint(r.Intn(16))
+	pool := make([]uint32, r.Range(3, 6))
+	id := uint32(r.Intn(1<<12)) + 1
+	if r.Chance(1, 4) {
+		id = uint32(r.U64()) >> 1
+	}
+	for i := range pool {
+		pool[i] = id
+		id += uint32(2 + r.Intn(1<<uint(r.Intn(10))))
+	}
+	if r.Chance(1, 4) { // ids at the ends and in the middle of the 32-bit range, and the ids the package names
+		pool = pool[:0]
+		for _, b := range []uint32{0, 1, 2, 0x7fffffff, 0x80000000, uint32(apcb.TokenIDPSPEnableDebugMode), uint32(apcb.TokenIDPSPErrorDisplay),
+			uint32(apcb.TokenIDPSPMeasureConfig), uint32(apcb.TokenIDPSPStopOnError), 0xfffffffe, 0xffffffff} {
+			if r.Bool() {
+				pool = append(pool, b)
+			}
+		}
+		if len(pool) < 2 {
+			pool = []uint32{0, 0xffffffff}
+		}
+	}
+	// values: mostly random within the width, sometimes 0 or all ones
+	edgeVal := func(v uint32) uint32 {
+		switch r.Intn(8) {
+		case 0:
+			return 0
+		case 1:
+			return 0xffffffff
+		}
+		return v
+	}
+	otherKind := func() uint16 {
+		for {
+			if k := uint16(r.Pick(0, 1, 2, 4)); k != kind {
+				return k
+			}
+		}
+	}
+	mkType := func() gtype {
+		t := gtype{kind: kind}
+		switch r.Intn(3) {
+		case 0:
+			t.prio, t.board = bp, bb
+		case 1:
+			t.prio, t.board = bp|uint8(r.U64()), bb|uint16(r.U64())
+		default:
+			t.prio, t.board = 0xff, 0xffff
+		}
+		if r.Chance(1, 3) { // a type the narrow requests do not match
+			switch r.Intn(3) {
+			case 0:
+				t.prio &^= bp
+			case 1:
+				t.board &^= bb
+			default:
+				t.kind = otherKind()
+			}
+		}
+		copy(t.raw[:], r.Bytes(16))
+		if r.Bool() {
+			copy(t.raw[:], []byte{0, 0x30, 0, 0, 0, 0, 0, 0, 2, 1, 8, 0, 4, 0, 0, 0})
+		}
+		for _, id := range pool {
+			if r.Chance(3, 5) {
+				t.toks = append(t.toks, wtok{id, edgeVal(genValue(r, t.kind))}) // all ones: junk above the width of narrow kinds
+			}
+		}
+		return t
+	}
+	foreign := func() ggroup {
+		g := ggroup{gid: uint16(r.Pick(0x1701, 0x1704, 0x3001, 0x2fff, 0x0030)), body: r.Bytes(r.Pick(0, 1, 8, 24, 40))}
+		copy(g.raw[:], r.Bytes(16))
+		return g
+	}
+	ntg := r.Range(2, 3)
+	for i := 0; i < ntg; i++ {
+		if r.Bool() {
+			s.groups = append(s.groups, foreign())
+		}
+		g := ggroup{token: true, extra: r.Bytes(r.Pick(0, 0, 0, 8, 16, 240, 256, 264, 1000))}
+		copy(g.raw[:], r.Bytes(16))
+		nt := r.Range(1, 3)
+		for j := 0; j < nt; j++ {
+			g.types = append(g.types, mkType())
+		}
+		s.groups = append(s.groups, g)
+	}
+	if r.Bool() {
+		s.groups = append(s.groups, foreign())
+	}
+	s.slack = r.Bytes(r.Pick(0, 8, 24, 40, 64, 200))
+	masks := func() (uint8, uint16) {
+		switch r.Intn(5) {
+		case 0:
+			return bp, bb
+		case 1:
+			return 0xff, 0xffff
+		case 2:
+			return bp | uint8(r.U64()), bb | uint16(r.U64())
+		case 3:
+			return bp, 0xffff
+		}
+		return 0xff, bb
+	}
+	mk := func(k uint32, kd uint16) req {
+		pm, bm := masks()
+		return req{k: k, pm: pm, bm: bm, kind: uint64(kd), v: cut(edgeVal(uint32(r.U64())), kd)}
+	}
+	first := pool[r.Intn(len(pool))]
+	qs := []req{mk(first, kind), mk(pool[r.Intn(len(pool))]+1, kind), mk(first, kind)}
+	if r.Bool() {
+		qs = append(qs, mk(pool[r.Intn(len(pool))], otherKind()))
+	}
+	if r.Bool() {
+		qs = append(qs, mk(pool[r.Intn(len(pool))], kind))
+	}
+	return s, qs
+}
+
+// edgeBlob: size classes the other families do not reach.
+//
+//	0..2  a type that cannot grow (8189 pairs) next to the request: an existing token of the full type is
+//	      updated; an earlier matching type is full while the last one has room; the last one is full
+//	3     no token group and SizeOfAPCB beyond 64 KiB: the new group starts at an offset >= 65536
+//	4     a small token group behind a foreign group of 64 KiB and more: the new type starts beyond 65536
+//	5     the same token in two token groups with a foreign group of 64 KiB and more between them
+//
+// the third result says whether the extracted model can evaluate the requests at quick-tier cost (no large
+// matching type)
+func edgeBlob(r *Rng, which int) (*gblob, []req, bool) {
+	s := &gblob{}
+	copy(s.hdr[:], r.Bytes(128))
+	mk := func(kind uint16, prio uint8, board uint16, n int, first, step uint32) gtype {
+		t := gtype{kind: kind, prio: prio, board: board}
+		copy(t.raw[:], r.Bytes(16))
+		for i := 0; i < n; i++ {
+			t.toks = append(t.toks, wtok{first + step*uint32(i), cut(uint32(r.U64()), kind)})
+		}
+		return t
+	}
+	tg := func(types ...gtype) ggroup {
+		g := ggroup{token: true, types: types}
+		copy(g.raw[:], r.Bytes(16))
+		return g
+	}
+	fg := func(n int) ggroup {
+		g := ggroup{gid: uint16(r.Pick(0x1701, 0x1704, 0x3001)), body: r.Bytes(n)}
+		copy(g.raw[:], r.Bytes(16))
+		return g
+	}
+	big := 65536 - 144 + r.Pick(0, 8, 16, 24, 1000, 5000) // the next group starts at or shortly behind offset 65536
+	var qs []req
+	via := true
+	rv := func() uint32 { return uint32(r.U64()) }
+	switch which {
+	case 0:
+		s.groups = []ggroup{tg(mk(4, 0xff, 0xffff, 8189, 10, 2))}
+		qs = []req{{k: 10 + 2*uint32(r.Intn(8189)), pm: 0x01 << uint(r.Intn(8)), bm: 0x0001 << uint(r.Intn(16)), kind: 4, v: rv()},
+			{k: 11 + 2*uint32(r.Intn(8000)), pm: 0xff, bm: 0xffff, kind: 4, v: rv()}}
+		via = false
+	case 1:
+		full, small := mk(4, 0xff, 0xffff, 8189, 10, 2), mk(4, 0x3f, 0x00ff, 3, 100001, 4)
+		s.groups = []ggroup{tg(full, small)}
+		if r.Bool() {
+			s.groups = []ggroup{tg(full), fg(r.Pick(0, 8, 24)), tg(small)}
+		}
+		qs = []req{{k: 100003 + 4*uint32(r.Intn(3)), pm: 0x21, bm: 0x0081, kind: 4, v: rv()},
+			{k: 10 + 2*uint32(r.Intn(8189)), pm: 0xc0, bm: 0xff00, kind: 4, v: rv()},
+			{k: 100001, pm: 0xff, bm: 0xffff, kind: 4, v: rv()}}
+		via = false
+	case 2:
+		full, small := mk(4, 0xff, 0xffff, 8189, 10, 2), mk(4, 0x3f, 0x00ff, 3, 100001, 4)
+		s.groups = []ggroup{tg(small, full)}
+		if r.Bool() {
+			s.groups = []ggroup{tg(small), tg(full)}
+		}
+		qs = []req{{k: 100003, pm: 0x21, bm: 0x0081, kind: 4, v: rv()}, // last matching type is full: refused, unchanged
+			{k: 100005, pm: 0x21, bm: 0x0081, kind: 4, v: rv()},
+			{k: 100003, pm: 0xc0, bm: 0xff00, kind: 4, v: rv()}}
+		via = false
+	case 3:
+		s.groups = []ggroup{fg(big)}
+		if r.Bool() {
+			s.groups = append(s.groups, fg(r.Pick(0, 8, 40)))
+		}
+		kd := uint16(r.Pick(0, 1, 2, 4))
+		qs = []req{{k: rv(), pm: 0x04, bm: 0x0200, kind: uint64(kd), v: cut(rv(), kd)}}
+		qs = append(qs, req{k: qs[0].k, pm: 0xff, bm: 0xffff, kind: uint64(kd), v: cut(rv(), kd)},
+			req{k: qs[0].k, pm: 0x08, bm: 0x0400, kind: uint64(kd), v: cut(rv(), kd)})
+	case 4:
+		s.groups = []ggroup{fg(big), tg(mk(1, 0x01, 0x0001, 2, 5, 5))}
+		if r.Bool() {
+			s.groups = append(s.groups, fg(r.Pick(0, 8, 40)))
+		}
+		qs = []req{{k: 0x77, pm: 0x02, bm: 0x0002, kind: 2, v: rv() & 0xffff}, {k: 0x77, pm: 0x02, bm: 0x0002, kind: 2, v: rv() & 0xffff},
+			{k: 7, pm: 0x03, bm: 0x0003, kind: 1, v: rv() & 0xff}}
+	default:
+		s.groups = []ggroup{tg(mk(4, 0x0f, 0x00ff, 4, 100, 10)), fg(big), tg(mk(4, 0x3c, 0x0ff0, 4, 100, 10), mk(4, 0xf0, 0xff00, 2, 110, 10))}
+		qs = []req{{k: 100 + 10*uint32(r.Intn(4)), pm: 0x0c, bm: 0x00f0, kind: 4, v: rv()}, {k: 125, pm: 0x0c, bm: 0x00f0, kind: 4, v: rv()},
+			{k: 110, pm: 0xff, bm: 0xffff, kind: 4, v: rv()}}
+	}
+	s.slack = r.Bytes(r.Pick(40, 64, 80))
+	return s, qs, via
+}
+
 func gen(r *Rng, tier string, emit Emit) {
 	n := 260
 	if tier == "thorough" {
@@ -984,6 +1233,78 @@ func gen(r *Rng, tier string, emit Emit) {
 			if viaModel {
 				emit("C", "upsert", ua...)
 				emit("C", "spec_upsert", ua...)
+			}
+			sa = append(sa, q.args()...)
+			_, nxt, _ := func() (string, []byte, error) {
+				defer func() { _ = recover() }()
+				return obsUpsert(q, cur)
+			}()
+			if nxt != nil {
+				cur = nxt
+			}
+		}
+		emit("P", "p_seq", sa...)
+		emit("P", "p_list", H(cur))
+	}
+	// the same token in several matching types and groups, every mask bit, long group headers
+	ns := 40
+	if tier == "thorough" {
+		ns = 1500
+	}
+	for it := 0; it < ns; it++ {
+		rr := r.Fork(uint64(3000000 + it))
+		s, qs := sharedBlob(rr)
+		img := s.enc()
+		emit("P", "p_list", H(img))
+		emit("C", "parse", H(img))
+		emit("C", "spec_parse", H(img))
+		seq := append(append([]byte{}, img...), make([]byte, rr.Pick(0, 8, 24, 48, 100))...)
+		sa := []string{H(seq), N(uint64(len(qs)))}
+		cur := append([]byte{}, seq...)
+		for _, q := range qs {
+			ua := append(q.args(), H(img))
+			emit("P", "p_upsert", ua...)
+			emit("C", "upsert", ua...)
+			emit("C", "spec_upsert", ua...)
+			sa = append(sa, q.args()...)
+			emit("C", "upsert", append(q.args(), H(cur))...)
+			_, nxt, _ := func() (string, []byte, error) {
+				defer func() { _ = recover() }()
+				return obsUpsert(q, cur)
+			}()
+			if nxt != nil {
+				cur = nxt
+			}
+		}
+		emit("P", "p_seq", sa...)
+	}
+	// full types next to the request; new group / new type / second token group behind 64 KiB
+	ne := 6
+	if tier == "thorough" {
+		ne = 30
+	}
+	for it := 0; it < ne; it++ {
+		rr := r.Fork(uint64(4000000 + it))
+		s, qs, cheap := edgeBlob(rr, it%6)
+		img := s.enc()
+		// a large matching type costs the list-based model about 10 s per call: one round of those in the thorough tier
+		viaModel := cheap || (tier == "thorough" && it < 6)
+		emit("P", "p_list", H(img))
+		if viaModel {
+			emit("C", "parse", H(img))
+		}
+		if viaModel && tier == "thorough" {
+			emit("C", "spec_parse", H(img))
+		}
+		sa := []string{H(img), N(uint64(len(qs)))}
+		cur := img
+		for _, q := range qs {
+			emit("P", "p_upsert", append(q.args(), H(img))...)
+			if viaModel {
+				emit("C", "upsert", append(q.args(), H(cur))...)
+			}
+			if viaModel && tier == "thorough" { // the specification on the abstraction as well (quick: kept near its wall time)
+				emit("C", "spec_upsert", append(q.args(), H(cur))...)
 			}
 			sa = append(sa, q.args()...)
 			_, nxt, _ := func() (string, []byte, error) {
